@@ -62,6 +62,7 @@ def run(report, tier, seed):
             report.violation(f"{mlab.stage}:model", {"seed": seed, "model_index": mlab.idx, "error": mlab.err, "files": _files(mlab)}, "")
         else:
             _one_process(report, mlab, lean, seed, 2 if quick else 6)
+        _same_name_in_import(report, sc, ybin, lean, seed)
         for i in range(0, len(labs), 2):
             a, b = labs[i], labs[i + 1]
             if not a.ok:
@@ -400,6 +401,37 @@ def _one_process(report, lab, lean, seed, rounds):
                 report.violation("py:own-stream-refused-after-other-readers", replay, "")
             elif want == 3 and res["rc"] == 0:
                 report.violation("py:foreign-stream-accepted-after-other-readers", replay, "")
+
+
+def _same_name_in_import(report, sc, ybin, lean, seed):
+    """a package that declares a previous version (identical to itself) and imports a package with a protocol of the same simple name whose steps differ
+    only in ways evolution would accept (uint -> ulong, float -> double): the imported protocol is another protocol, not a previous version of
+    this one - its streams must be refused, by the readers of both languages"""
+    import copy
+    P = lambda n: ("prim", n)
+    lib = modelgen.Package("Lib")
+    lib.defs.append({"kind": "record", "name": "Marker", "tparams": [], "fields": [("t", P("uint32"))]})
+    lib.defs.append({"kind": "protocol", "name": "Waveform", "steps": [("sampleCount", P("uint32"), False), ("samples", P("float32"), True)]})
+    app = modelgen.Package("App")
+    app.imports.append(lib)
+    app.defs.append({"kind": "record", "name": "Note", "tparams": [], "fields": [("text", P("string")), ("m", ("named", "Lib.Marker", []))]})
+    app.defs.append({"kind": "protocol", "name": "Waveform", "steps": [("sampleCount", P("uint64"), False), ("samples", P("float64"), True)]})
+    app.defs.append({"kind": "protocol", "name": "Notes", "steps": [("m", ("named", "Note", []), True)]})
+    a = codeclab.Lab(sc, ybin, 700, modelgen.Gen(seed * 13 + 700), pkg=app)
+    a.old_pkgs = [("v1", copy.deepcopy(app))]
+    libl = codeclab.Lab(sc, ybin, 701, modelgen.Gen(seed * 13 + 701), pkg=lib, want_cpp=False)
+    a.prepare()
+    libl.prepare()
+    for l in (a, libl):
+        if not l.ok:
+            report.violation(f"{l.stage}:model", {"seed": seed, "model_index": l.idx, "error": l.err, "files": _files(l)}, "")
+            return
+    report.count("models.same-name-in-import")
+    for pname in ("Waveform",):
+        # its own stream is accepted ...
+        _feed(report, a, lean, pname, _ref(a, lean, pname, a.gen), "own-stream-with-declared-version", seed)
+        # ... the imported package's protocol of the same name is not
+        _feed(report, a, lean, pname, _ref(libl, lean, pname, libl.gen), f"same-name-in-import:Lib.{pname}->App.{pname}", seed, extra={"writer_files": _files(libl)})
 
 
 def _varlen(n):
